@@ -97,7 +97,7 @@ PEnd(s, n) ==
     [] s = "obs_after_cov" -> IF n <= 1 THEN "ERR" ELSE "point_obs"        \* dim >= 1 differs from 0 observations
     [] s = "hdiffs_dh" -> "hdiffs"
     [] s = "hdiffs_cov" -> "hdiffs_after_cov"
-    [] s = "hdiffs" -> "point_obs"
+    [] s = "hdiffs" -> IF n = 0 THEN "ERR" ELSE "point_obs"                \* 0x0 covariance "not positive definite"
     [] s = "hdiffs_after_cov" -> IF n <= 1 THEN "ERR" ELSE "point_obs"
     [] s = "coords_point" -> "coords"
     [] s = "coords_cov" -> "coords_after_cov"
